@@ -261,6 +261,11 @@ func runJob(c *collector, j job, methods []string, base string) (failed bool) {
 		c.fcases = append(c.fcases, cases...)
 		c.mu.Unlock()
 		res.Eval(fmt.Sprintf("stor/%d", j.Index), true)
+		if j.Index == 0 {
+			if d := packWrapProbe(); d != "" {
+				c.knownHit("memstorage-packfile-wrap", d, j)
+			}
+		}
 		for _, f := range fails {
 			c.violate("storage contract: "+f, j, detail)
 			failed = true
